@@ -1,9 +1,42 @@
 package harness
 
 import (
+	"errors"
+
 	"github.com/prometheus/client_golang/prometheus"
 	dto "github.com/prometheus/client_model/go"
 )
+
+// existingCounter returns the counter child of a CounterVec that the code
+// under test registered with the default registry (found by registering an
+// identical descriptor, which reports the existing collector). Cheap to read,
+// unlike a full Gather.
+func existingCounter(subsystemName, help, labelName, labelValue string) prometheus.Counter {
+	cv := prometheus.NewCounterVec(prometheus.CounterOpts{Namespace: "buildbarn", Subsystem: "blobstore", Name: subsystemName, Help: help}, []string{labelName})
+	err := prometheus.Register(cv)
+	var are prometheus.AlreadyRegisteredError
+	if errors.As(err, &are) {
+		if ex, ok := are.ExistingCollector.(*prometheus.CounterVec); ok {
+			return ex.WithLabelValues(labelValue)
+		}
+		return nil
+	}
+	if err == nil {
+		prometheus.Unregister(cv)
+	}
+	return nil
+}
+
+func counterValue(c prometheus.Counter) float64 {
+	if c == nil {
+		return 0
+	}
+	var m dto.Metric
+	if c.Write(&m) != nil || m.Counter == nil {
+		return 0
+	}
+	return m.Counter.GetValue()
+}
 
 // metricSnapshot reads the Prometheus collectors of the code under test
 // (black-box observation point used by the oracles).
